@@ -82,7 +82,7 @@ def main(tier='quick', seed=0, part=None):
     run.extra['bounds'] = dict(
         layouts=by_kind, grid=tc.GRID_DOC[tier],
         t1_sizes=[list(x) for x in tc.T1_SIZES], t2_sizes=sorted(tc.T2_SIZES),
-        reserved_classes=list(tc.RSV_CLASSES) + ['afterL', 'fill2/3/6'],
+        reserved_classes=list(tc.RSV_CLASSES) + ['afterL', 'NDEF TLV 2/3/6 and 254..260 bytes before the end'],
         t3_nmaxb=list(tc.T3_NMAXB), t4=dict(mle=tc.T4_MLE, mlc=tc.T4_MLC,
                                            mfs=tc.T4_MFS, fsci='0..8', tech='A,B'),
         items=len(items), part=part)
